@@ -149,7 +149,30 @@ fn check_family(
         };
         let mirrored = predicted(e_text, r1.0)
             && member_texts.iter().zip(r1.1.iter()).all(|(t, r)| predicted(t, *r));
-        let class = if nested && mirrored { Some("nested-tree-position".to_string()) } else { None };
+        // ... and to the recorded rooted-first deviation D1 alone (unrolling an optional repetition
+        // with n = 0 in front of `/**/` turns a middle tree wildcard into a rooted-first one, whose
+        // trailing separator is optional: `/**/b` matches `/xb`) only if the reference with
+        // exactly D1 predicts every answer
+        let predicted_d1 = |text: &str, real: bool| -> bool {
+            let dev = refmodel::lang::Deviations { d1: true, ..Default::default() };
+            match syntax::parse(text).ok().map(|a| refmodel::lang::reference(&a, &dev)) {
+                Some(refmodel::lang::Spec::Specified(r)) => Dfa::new(&r.regex).map_or(false, |d| d.accepts(path) == real),
+                _ => false,
+            }
+        };
+        let class = if nested && mirrored {
+            Some("nested-tree-position".to_string())
+        }
+        else if !nested
+            && std::iter::once(e_text).chain(member_texts.iter().copied()).any(|t| t.trim_start_matches(|ch| ch != '/' && ch != '*').starts_with("/**") || t.contains("/**"))
+            && predicted_d1(e_text, r1.0)
+            && member_texts.iter().zip(r1.1.iter()).all(|(t, r)| predicted_d1(t, *r))
+        {
+            Some("rooted-first-tree-optional-separator".to_string())
+        }
+        else {
+            None
+        };
         rep.alarm(Alarm {
             class,
             key: format!("{} {} {:?}", kind, e_text, member_texts),
@@ -228,6 +251,19 @@ pub fn c07(tier: Tier) -> i32 {
     if tier == Tier::Quick {
         opts.subst_pairs = 0;
         opts.subst_single = 2;
+    }
+    else {
+        // every family costs a product exploration of several automata (measured: the standard
+        // thorough space takes more than three hours on 16 cores here, even its half 112 minutes):
+        // the thorough tier of this check keeps the quick shapes, substitutes singles and pairs on
+        // more of them, adds the reduced alphabet at size 5 and the full wrapper set at nesting
+        // depth 2; the shapes of size 5 are left to the single-automaton checks
+        opts.shape = 4;
+        opts.subst_single = 3;
+        opts.subst_pairs = 3;
+        opts.reduced = 5;
+        opts.position = 2;
+        opts.position_full = 2;
     }
     let sub_wrap_max = tier.pick(3, 4);
     for_each_glob(&rep, &opts, &|e, g, c| {
